@@ -2,6 +2,7 @@ import GqlProofs.SchemaConsistent
 import GqlProofs.SchemaTotal
 import GqlProofs.SchemaAppend
 import GqlProofs.SchemaOrder
+import GqlProofs.SchemaBridge
 /-! # C11 — Schema construction never yields an inconsistent type system
 
 Property theorems only. `M` = `newSchema` / `appendType` (lean/GqlModel/SchemaBuild.lean: `graphql.NewSchema`,
@@ -72,6 +73,47 @@ theorem subtype_reflexive_transitive (k : Nat → Kind) (p : Nat → Nat → Boo
     (∀ a b c, isSubType k p a b = true → isSubType k p b c = true → isSubType k p a c = true) :=
   ⟨isSubType_refl k p, isSubType_trans k p⟩
 
+/-! ## What construction guarantees to the other models
+
+`BuiltSchema.toSchema` (lean/GqlModel/SchemaBuildBridge.lean) renders the schema that `NewSchema` returned in the shared
+vocabulary `GqlModel.Schema`. The following are the schema premises of other properties' theorems, proved as
+consequences of successful construction. `Config.mapsOk` says that the configuration is a rendering of Go maps: the
+keys of each map (fields, arguments, input fields, enum values, directive arguments) are distinct — like
+`Config.wellTyped`, a fact about every configuration the Go API can be handed, not a restriction. -/
+
+/-- C10 `membersOnce`: no object lists an interface twice, no union a member twice. -/
+theorem newSchema_ok_membersOnce (cfg : Config) (more : List TRef) (s : St) (_h : newSchema cfg more = .ok s) :
+    ((dump cfg s).toSchema).types.all Introspection.membersOnce = true :=
+  toSchema_membersOnce cfg s
+
+/-- C10 `wfInputTypes`: enum value names and input field names are valid names, pairwise distinct within their type,
+and no enum value is called `true`, `false` or `null`. -/
+theorem newSchema_ok_wfInputTypes (cfg : Config) (hm : cfg.mapsOk = true) (more : List TRef) (s : St)
+    (_h : newSchema cfg more = .ok s) : Introspection.wfInputTypes ((dump cfg s).toSchema).types = true :=
+  toSchema_wfInputTypes cfg hm s
+
+/-- C05 `inputFieldsNodup`: the field names of every input object are distinct. -/
+theorem newSchema_ok_inputFieldsNodup (cfg : Config) (hm : cfg.mapsOk = true) (more : List TRef) (s : St)
+    (_h : newSchema cfg more = .ok s) : Coerce.inputFieldsNodup ((dump cfg s).toSchema) :=
+  toSchema_inputFieldsNodup cfg hm s
+
+/-- C14 (TypeInfo) `ArgsUnique`: argument names are pairwise distinct within every field and directive definition
+(including the introspection types, the meta fields and the specified directives). -/
+theorem newSchema_ok_argsUnique (cfg : Config) (hm : cfg.mapsOk = true) (more : List TRef) (s : St)
+    (_h : newSchema cfg more = .ok s) : TypeInfoStacks.ArgsUnique ((dump cfg s).toSchema) :=
+  toSchema_argsUnique cfg hm s
+
+/-- C01 / C02 / C04: what the executor and validator models may assume about a constructed schema: type names are
+distinct; every interface, union member, field / argument / input-field type and root names a defined type; every
+object has all fields of the interfaces it declares — together with the four premises above. Also after appends. -/
+theorem newSchema_ok_translation_consistent (cfg : Config) (hwt : cfg.wellTyped = true) (hm : cfg.mapsOk = true)
+    (more ts : List TRef) (s s' : St) (h : newSchema cfg more = .ok s) (ha : appendAll cfg s ts = .ok s') :
+    let sch := (dump cfg s').toSchema
+    TranslationConsistent sch ∧ sch.types.all Introspection.membersOnce = true ∧
+      Introspection.wfInputTypes sch.types = true ∧ Coerce.inputFieldsNodup sch ∧ TypeInfoStacks.ArgsUnique sch :=
+  ⟨(appendAll_good ts s s' (newSchema_good h) ha).translationConsistent hwt, toSchema_membersOnce cfg s',
+    toSchema_wfInputTypes cfg hm s', toSchema_inputFieldsNodup cfg hm s', toSchema_argsUnique cfg hm s'⟩
+
 /-! ## Non-vacuity: concrete configurations -/
 
 private def q (fs : List FieldCfg) : TypeCfg :=
@@ -100,7 +142,7 @@ private def errIs (cfg : Config) (e : Err) : Bool :=
 /-- the hypotheses of the theorems are satisfiable: a well-typed configuration on which `NewSchema` succeeds (12 types:
 Q, I and the ten built-ins), and on which appending A and B in either order or supplying them up front succeeds with
 14 types -/
-example : cfgI.wellTyped = true ∧ okWith cfgI [] [] 12 = true ∧ okWith cfgI [.ref 15, .ref 16] [] 14 = true ∧
+example : cfgI.wellTyped = true ∧ cfgI.mapsOk = true ∧ okWith cfgI [] [] 12 = true ∧ okWith cfgI [.ref 15, .ref 16] [] 14 = true ∧
     okWith cfgI [] [.ref 16, .ref 15] 14 = true := by decide +kernel
 
 /-- the repaired defect classes are rejected by the model: an input object as a field type (D-11c), `[String!!]`
